@@ -130,7 +130,7 @@ static inline void bufseq_advance(bufseq_t b, size_t *k)
 static inline struct packet *pl_front_recv(struct pktlist *q)
 {
   struct packet *f = pl_front(q);
-  __CPROVER_assume((f->type == PKT_payload || f->type == PKT_error) && f->bufsz <= PKT_MAX && (f->type == PKT_error ? (f->ec != 0 && f->bufsz == 0) : f->bufsz >= 1));
+  __CPROVER_assume((f->type == PKT_payload || f->type == PKT_error) && f->bufsz <= PKT_MAX && (f->type == PKT_error ? (f->ec != 0 && f->ec != EC_would_block && f->bufsz == 0) : f->bufsz >= 1));
   return f;
 }
 /* memcpy(buffer k of the caller's sequence + off, front packet's payload, n) */
